@@ -148,3 +148,40 @@ def check_generated(rep, binary, n, what, tag="pgen"):
     rep.add("first_errors_predicted_by_the_parser_twin", nerr)
     rep.coverage["token_sequences_enumerated_by_TLC_up_to_length"] = n
     return nn, res.distinct
+
+
+def context_sources(max_depth=3):
+    """the context rules of the compiler (return / break / continue placement, self / Self / super availability, reading a variable in its own
+    initialiser) under every chain of enclosing constructs up to max_depth: functions, lambdas, loops, methods, static methods and constructors of
+    classes with and without a superclass - declared at top level or INSIDE one another (the rules look at the innermost class / function only)."""
+    import itertools
+    wraps = {
+        "fn": ("fn f%d() {\n", "}\n"),
+        "lambda": ("var l%d = || {\n", "};\n"),
+        "while": ("while true {\n", "break;\n}\n"),
+        "for": ("for i%d in 0..1 {\n", "}\n"),
+        "block": ("{\n", "}\n"),
+        "method-derived": ("#[derive(Base)]\nclass D%d {\nfn m(self) {\n", "}\n}\n"),
+        "method-plain": ("class N%d {\nfn m(self) {\n", "}\n}\n"),
+        "static-derived": ("#[derive(Base)]\nclass S%d {\n#[static]\nfn s() {\n", "}\n}\n"),
+        "static-plain": ("class T%d {\n#[static]\nfn s() {\n", "}\n}\n"),
+        "ctor-derived": ("#[derive(Base)]\nclass C%d {\n#[constructor]\nfn new(self) {\n", "}\n}\n"),
+    }
+    uses = ["return 1;\n", "return;\n", "break;\n", "continue;\n", "print(self);\n", "print(Self);\n", "super.m();\n", "var g = super.m;\n",
+            "var x = x;\n", "var ok = 1;\n"]
+    out = []
+    names = sorted(wraps)
+    for d in range(0, max_depth + 1):
+        for chain in itertools.product(names, repeat=d):
+            # a class may only be declared where a statement may stand: always true for these wrappers
+            for use in uses:
+                src = "class Base {\nfn m(self) {\nreturn 1;\n}\n}\n"
+                for k, w in enumerate(chain):
+                    pre = wraps[w][0]
+                    src += pre % k if "%d" in pre else pre
+                src += use
+                for k, w in reversed(list(enumerate(chain))):
+                    src += wraps[w][1]
+                src += "print(1);\n"
+                out.append(src)
+    return out
